@@ -1,14 +1,14 @@
 from props import Prop, Stream, reg
 
 reg(Prop('C16', [
-    Stream('c16.rej', 4000, 400000, 'spec'),
-    Stream('c16.nopanic', 2000, 200000, 'oracle',
+    Stream('c16.rej', 3000, 200000, 'spec'),
+    Stream('c16.nopanic', 1500, 100000, 'oracle',
            exhaustive='StartLength sums at the u64 / i64 boundary and BaseAddress entries x address sizes 0,1,2,3,4,8,9,16,31,32,33,255 x versions 2,4,5'),
-    Stream('c16.rng', 6000, 600000, 'model',
+    Stream('c16.rng', 4000, 300000, 'model',
            exhaustive='single-entry and base+entry range lists over every kind x 7 boundary values squared (0,1,0x20,max-2,max-1(all-ones),2^(8s),2^64-1) x versions 2-5 x address sizes 1,2,4,8 x low_pc absent/0/non-zero'),
-    Stream('c16.loc', 6000, 600000, 'model',
+    Stream('c16.loc', 4000, 300000, 'model',
            exhaustive='same domain as c16.rng for location lists (+DefaultLocation); expression lengths 0,1,127,128,16383,16384,65535,65536 in v4 and v5'),
-    Stream('c16.unit', 6000, 600000, 'model',
+    Stream('c16.unit', 4000, 300000, 'model',
            exhaustive='design item F8 and its four relatives x versions 2-5 x address sizes 1,2,4,8'),
 ], design_ref='§5 C16',
     clauses=[
